@@ -48,6 +48,16 @@ func NewEnv(node *Node, gapLimit uint32, wrap func(mwdb.DB) mwdb.DB) (*Env, erro
 	}
 	cfg := &config.Config{Core: config.NewDefCoreConfig(), Wallet: config.NewDefWalletConfig()}
 	cfg.Wallet.Settings.AddressGapLimit = gapLimit
+	// the adjustments config.LoadConfig applies to the advanced wallet settings
+	if cfg.Wallet.Settings.AddressGapLimit <= cfg.Wallet.Settings.MaxUnusedStakingAddress {
+		cfg.Wallet.Settings.MaxUnusedStakingAddress = (uint32)(float32(cfg.Wallet.Settings.AddressGapLimit) * 0.2)
+	}
+	if cfg.Wallet.Settings.MaxUnusedStakingAddress == 0 {
+		cfg.Wallet.Settings.MaxUnusedStakingAddress = 1
+	}
+	if len(cfg.Wallet.Settings.MaxTxFee) == 0 {
+		cfg.Wallet.Settings.MaxTxFee = config.DefaultMaxTxFee
+	}
 	e := &Env{Node: node, Dir: dir, DBPath: filepath.Join(dir, "wallet.db"), Cfg: cfg, PubPass: DefaultPubPass, Wrap: wrap}
 	if err := e.Open(true); err != nil {
 		os.RemoveAll(dir)
